@@ -143,6 +143,20 @@ func c15Run(c *ev.Ctx) {
 				fail(fmt.Sprintf("%s:get-bytes:%s%s", what, region(o.off+o.len), rl()), fmt.Sprintf("GetObject(%x) off=%d len=%d returned different bytes (first diff at %d)", o.id, o.off, o.len, firstDiff(got, o.data)))
 				return false
 			}
+			// what GetObject returned is the caller's: it is overwritten here (a caller recycling
+			// its buffer); the stored object must not follow — seen by the next sweep
+			for i := range got {
+				got[i] = 0xEE
+			}
+		}
+		// second sweep: nothing a caller did to earlier results shows in the heap
+		for _, k := range keys {
+			o := live[k]
+			got, err := h.GetObject(o.id)
+			if err != nil || !bytes.Equal(got, o.data) {
+				fail(fmt.Sprintf("%s:changed-by-write-into-returned-bytes:%s%s", what, region(o.off+o.len), rl()), fmt.Sprintf("GetObject(%x) off=%d len=%d differs after the caller overwrote the slice an earlier GetObject had returned (err=%v)", o.id, o.off, o.len, err))
+				return false
+			}
 		}
 		// header counters
 		if h.Header.NumManagedObjects != uint64(len(live)) {
